@@ -553,6 +553,7 @@ pub fn run_case(case: &mut Case) {
     o.strict = false;
     o.adjacent_args = false;
     o.adjacent_optional_words = true;
+    o.adjacent_in_adjacent = true;
     let spec = {
         let mut p = Pool::new(&mut rng, o);
         gen_def(&mut p)
